@@ -263,3 +263,12 @@ def no_panic_under_lock(ctx):
     n = c14.audit_panics(ctx, F, reach, 'a call made while the RNG lock is held')
     ctx.floor(len(callees), 8, 'functions called under the lock')
     ctx.note('%d functions run under the lock, %d reachable, %d panic sites audited' % (len(callees), len(reach), n))
+
+
+@rule('C19', 'no-spin-under-lock')
+def no_spin_under_lock(ctx):
+    """'No call blocks forever': decapsulation iterates usk.secrets.revisions() while the guard of the shared RNG is live; the
+    iterator must run dry (None once every chain is exhausted, including when there is no chain at all), otherwise one call
+    with a right-less key spins with the lock held and every other thread blocks for good (C14.iter-progress)."""
+    from . import c14
+    c14.check_revision_iterator(ctx)
